@@ -39,10 +39,15 @@ class World:
         self.step_budget = 400000
         self.notes = []          # free-form per-path annotations
         self.sym_inputs = {}     # name -> z3 term (for concretisation)
-        self.len_axioms = set()
+        self.len_axioms = {}
+        self.var_ranges = {}     # variable name -> (lo, hi) when the scenario bounds it
         self._known_true = {}
         from . import sbytes as _sb
         _sb.CURRENT_WORLD[0] = self
+        # per-path tables: nothing learnt on one path may leak into another
+        _sb.RAW_CONTENT.clear()
+        _sb._same_vars.clear()
+        _sb._atom_ids.clear()
 
     # -- variables
     def fresh_name(self, base):
